@@ -18,7 +18,8 @@
     uses the same token (C14; oracle + balance correspondence). *)
 From LP Require Import Proofs.Tactics Proofs.LedgerBase Proofs.Gates Proofs.Frames Proofs.Settle Proofs.Confirm Proofs.Ledger
   Proofs.ClaimLedger Proofs.Loop Proofs.Resume Proofs.FisherYates Proofs.Shuffle Proofs.Rng Proofs.Filter Proofs.Partition
-  Proofs.Resume3 Proofs.GuaranteedLoop Proofs.Leftover Proofs.Lifecycle Proofs.Setup Proofs.SetupPrice Proofs.SetupGt Proofs.Examples.
+  Proofs.Resume3 Proofs.GuaranteedLoop Proofs.Leftover Proofs.Lifecycle Proofs.Interleave Proofs.LifecycleNoisy Proofs.Setup Proofs.SetupPrice
+  Proofs.SetupGt Proofs.Examples.
 Open Scope N_scope.
 
 Theorem C01_confirm_keeps_solvency : forall (H : list N -> list N) v e b sd w n w' r A,
@@ -163,6 +164,25 @@ Theorem C01_pipeline : forall (H : list N -> list N) l w0 lf wf ef bf w1 ls ws e
   nr_winning (st w2) = k /\ (forall t, status (st w2) t = true <-> In t wins) /\ NoDup wins /\
   claimable_payment (st w2) = price (st w0) * k /\ confirmed (st w2) = confirmed (st w0).
 Proof. exact pipeline_to_claims. Qed.
+
+(** the same with other accepted transactions (pause ... unpause, support / claim-start setters, see
+    C04_noise_calls) interleaved anywhere between the calls of the two steps: the state reached is the
+    noise-free one up to the support address and the claim start, and satisfies [ClaimInv] *)
+Theorem C01_pipeline_noisy : forall (H : list N -> list N) l w0 wf ef bf w1' ws es bs w2' sd rest,
+  PreSel w0 l -> paused (st w0) = false -> open_flags w0 ->
+  noisy filter_tickets w0 wf -> filter_tickets ef bf wf = Ok (w1', 0) ->
+  seeds w1' = sd :: rest ->
+  noisy (select_winners H) w1' ws -> select_winners H es bs ws = Ok (w2', 0) ->
+  exists su cs w2,
+    w2' = Uw su cs w2 /\ ClaimInv w2' (map fst l) /\
+    let A := map fst l in
+    let total := sumN (map (confirmed (st w0)) A) in
+    let k := N.min (nr_winning (st w0)) total in
+    let wins := fst (fy (N.to_nat k) (range_ids 1 total) (rng_words H (N.to_nat k) {| r_seed := sd; r_index := 0 |})) in
+    Layout (range (st w2)) (confirmed (st w2)) 0 A /\ last_ticket_id (st w2) = total /\
+    nr_winning (st w2) = k /\ (forall t, status (st w2) t = true <-> In t wins) /\ NoDup wins /\
+    claimable_payment (st w2) = price (st w0) * k.
+Proof. exact pipeline_noisy. Qed.
 
 Theorem C01_pipeline_drained : forall (H : list N -> list N) l w0 lf wf ef bf w1 ls ws es bs w2 sd rest w3,
   PreSel w0 l ->
@@ -312,6 +332,7 @@ Print Assumptions C01_owner_gt.
 Print Assumptions C01_any_order.
 Print Assumptions C01_drained.
 Print Assumptions C01_pipeline.
+Print Assumptions C01_pipeline_noisy.
 Print Assumptions C01_pipeline_drained.
 Print Assumptions C01_pipeline_gt.
 Print Assumptions C01_pipeline_nft.
